@@ -57,15 +57,19 @@ func (e *exec) Exec(op string) string {
 	case "case":
 		e.closeAll()
 		return "ok"
-	case "sc", "w", "r", "inj", "maxenc":
+	case "sc", "scp", "seal", "wf", "w", "r", "inj", "maxenc":
 		return e.streamOp(toks)
 	case "mux":
 		return e.muxOp(toks)
 	case "mraw":
 		return e.mrawOp(toks)
+	case "mtry":
+		return e.mtryOp(toks)
+	case "mping":
+		return e.mpingOp(toks)
 	case "hs":
 		return e.hsOp(toks)
-	case "swnew", "swblack", "swconn", "swdrop":
+	case "swnew", "swblack", "swconn", "swdrop", "swsend", "swrecv":
 		return e.swOp(toks)
 	}
 	return "bad-op"
@@ -88,6 +92,10 @@ func ansArg(ans, key string) string {
 func (P) Monitor(c *hx.CaseRun) []hx.Failure {
 	var fs []hx.Failure
 	swBlack, swPeers := map[string]bool{}, map[string]bool{}
+	deadDir := map[string]bool{}
+	var sealPend []sealEvent
+	var sealCur []byte
+	sealOK, sealRest := 0, 0
 	// --- stream: per direction, what was written and how far the reader got
 	type dirSt struct {
 		written []byte
@@ -105,6 +113,7 @@ func (P) Monitor(c *hx.CaseRun) []hx.Failure {
 		}
 		switch toks[0] {
 		case "sc":
+			deadDir = map[string]bool{}
 			dirs = map[string]*dirSt{"a": {}, "b": {}}
 			if ans != "ok" {
 				fs = append(fs, fail("handshake_live", "handshake-honest-fails", siteSC+":MakeSecretConnection", "honest pair did not connect: "+ans))
@@ -115,6 +124,12 @@ func (P) Monitor(c *hx.CaseRun) []hx.Failure {
 				continue
 			}
 			d := dirs[argS(toks, "side")]
+			if deadDir[argS(toks, "side")] {
+				if ansArg(ans, "err") == "none" {
+					fs = append(fs, fail("stream_write_complete", "write-on-failed-transport-succeeds", siteSC+":Write", "Write reported success on a transport that had failed: "+ans))
+				}
+				continue
+			}
 			if ansArg(ans, "err") != "none" || atoi(ansArg(ans, "n")) != sp.n {
 				fs = append(fs, fail("stream_write_complete", "stream-write-short", siteSC+":Write", fmt.Sprintf("Write of %d bytes answered %s", sp.n, ans)))
 				d.dirty = true
@@ -134,10 +149,104 @@ func (P) Monitor(c *hx.CaseRun) []hx.Failure {
 			if sum != sp.n {
 				fs = append(fs, fail("stream_frames_cover", "stream-frames-do-not-cover-write", siteSC+":Write", fmt.Sprintf("frames %s for a write of %d bytes", ansArg(ans, "frames"), sp.n)))
 			}
+		case "wf":
+			// Write on a transport that takes k more frames: the count returned is exactly the bytes of the frames that left
+			sp, ok := parseSpec(argS(toks, "d"))
+			if !ok || ans == "dead" || deadDir[argS(toks, "side")] {
+				continue
+			}
+			k, nch := atoi(argS(toks, "k")), (sp.n+hDataMaxSize-1)/hDataMaxSize
+			wantN, wantErr := sp.n, "none"
+			if k < nch {
+				wantN, wantErr = k*hDataMaxSize, "write"
+				deadDir[argS(toks, "side")] = true
+			}
+			if atoi(ansArg(ans, "n")) != wantN || ansArg(ans, "err") != wantErr {
+				fs = append(fs, fail("stream_write_count", "write-count-after-transport-error", siteSC+":Write",
+					fmt.Sprintf("Write of %d bytes on a transport taking %d frames answered %s, want n=%d err=%s", sp.n, k, ans, wantN, wantErr)))
+			}
+			d := dirs[argS(toks, "side")]
+			d.written = append(d.written, sp.bytes()[:wantN]...)
+		case "scp":
+			dirs = map[string]*dirSt{"a": {}, "b": {}}
+			dirs["a"].dirty = true // byte identity of this direction is judged frame by frame (sealPend)
+			sealPend, sealOK = nil, 0
+			if ans != "ok" {
+				fs = append(fs, fail("handshake_live", "handshake-honest-fails", siteSC+":MakeSecretConnection", "hand-made peer did not connect: "+ans))
+			}
+		case "seal":
+			// ground truth of the hand-made peer: a frame is acceptable iff it is undamaged and sealed for the next receive
+			// nonce (index = number of frames accepted so far); what it then carries is (data ++ zeros)[:lf]
+			sp, _ := parseSpec(argS(toks, "d"))
+			idx, lf := atoi(argS(toks, "idx")), atoi(argS(toks, "lf"))
+			ev := sealEvent{}
+			if idx == sealOK && argS(toks, "cut") == "" && argS(toks, "flip") == "" {
+				sealOK++
+				plain := append([]byte{byte(lf >> 24), byte(lf >> 16), byte(lf >> 8), byte(lf)}, sp.bytes()...)
+				if v := argS(toks, "short"); v != "" {
+					plain = plain[:atoi(v)]
+				}
+				buf := make([]byte, hDataMaxSize+4)
+				if len(plain) <= len(buf) {
+					copy(buf, plain)
+				}
+				l := int(uint32(buf[0])<<24 | uint32(buf[1])<<16 | uint32(buf[2])<<8 | uint32(buf[3]))
+				if l > hDataMaxSize {
+					ev.err = "chunklen"
+				} else {
+					ev.accept, ev.chunk = true, buf[4:4+l]
+				}
+			} else {
+				ev.err = "decrypt"
+			}
+			sealPend = append(sealPend, ev)
 		case "inj":
 			dirs[other[argS(toks, "side")]].dirty = true
+			if sealPend != nil || c.Tags["sealed"] {
+				sealPend = append(sealPend, sealEvent{skip: true})
+			}
 		case "r":
 			if ans == "dead" {
+				continue
+			}
+			if ansArg(ans, "big") == "true" {
+				fs = append(fs, fail("read_allocation_bounded", "read-allocates-announced-length", siteSC+":Read",
+					"Read allocated more than 1 MiB on behalf of one frame (frames are at most 64 KiB, chunks at most 32 KiB): "+ans))
+			}
+			if c.Tags["sealed"] && argS(toks, "side") == "b" {
+				// one frame event per read that starts with an empty recvBuffer
+				if sealRest > 0 {
+					m := atoi(ansArg(ans, "n"))
+					if ansArg(ans, "err") != "none" || m > sealRest || fnvOf(sealCur[len(sealCur)-sealRest:len(sealCur)-sealRest+m]) != ansArg(ans, "d") {
+						fs = append(fs, fail("sealed_frames", "sealed-frame-bytes-differ", siteSC+":Read", "remainder of a sealed chunk read back differently: "+ans))
+						sealRest = 0
+					} else {
+						sealRest -= m
+					}
+				} else if len(sealPend) > 0 {
+					ev := sealPend[0]
+					sealPend = sealPend[1:]
+					m, er := atoi(ansArg(ans, "n")), ansArg(ans, "err")
+					switch {
+					case ev.skip:
+					case !ev.accept && er != ev.err:
+						cl := "sealed-frame-error-kind"
+						if er == "none" {
+							cl = "sealed-frame-replayed-or-forged-accepted"
+						}
+						fs = append(fs, fail("sealed_frames", cl, siteSC+":Read", fmt.Sprintf("a sealed frame that must be refused (%s) answered %s", ev.err, ans)))
+					case ev.accept:
+						want := atoi(argS(toks, "n"))
+						if want > len(ev.chunk) {
+							want = len(ev.chunk)
+						}
+						if er != "none" || m != want || fnvOf(ev.chunk[:m]) != ansArg(ans, "d") {
+							fs = append(fs, fail("sealed_frames", "sealed-frame-bytes-differ", siteSC+":Read", fmt.Sprintf("a valid sealed frame of %d bytes answered %s", len(ev.chunk), ans)))
+						} else {
+							sealCur, sealRest = ev.chunk, len(ev.chunk)-m
+						}
+					}
+				}
 				continue
 			}
 			d := dirs[other[argS(toks, "side")]]
@@ -173,6 +282,23 @@ func (P) Monitor(c *hx.CaseRun) []hx.Failure {
 			fs = append(fs, monitorMux(toks, ans)...)
 		case "mraw":
 			fs = append(fs, monitorMraw(toks, ans)...)
+		case "mtry":
+			fs = append(fs, monitorMtry(toks, ans)...)
+		case "mping":
+			want := "sent=true errsA=0 errsB=0 ping=true pong=true delivered=1"
+			if argS(toks, "mode") == "silent" {
+				want = "err=pongtimeout errs=1 running=false"
+			}
+			if ans != want {
+				fs = append(fs, fail("ping_pong", "ping-pong-discipline", siteMC+":sendRoutine", fmt.Sprintf("mode %s answered %q, want %q", argS(toks, "mode"), ans, want)))
+			}
+		case "swsend":
+			fs = append(fs, monitorSwSend(toks, ans, swPeers)...)
+		case "swrecv":
+			fs = append(fs, monitorSwRecv(toks, ans, swPeers)...)
+			if strings.Contains(ans, "peers=") {
+				swPeers = peerSetOf(ansArg(ans, "peers"))
+			}
 		case "hs":
 			fs = append(fs, monitorHS(toks, ans)...)
 		case "swnew":
@@ -193,6 +319,13 @@ func (P) Monitor(c *hx.CaseRun) []hx.Failure {
 }
 
 const sitePS = "libs/p2p/switch.go:addPeer"
+
+type sealEvent struct {
+	skip   bool // an injected raw frame: judged by the correspondence only
+	accept bool
+	err    string
+	chunk  []byte
+}
 
 func peerSetOf(s string) map[string]bool {
 	m := map[string]bool{}
@@ -217,7 +350,7 @@ func monitorSwConn(toks []string, ans string, black, peers map[string]bool) []hx
 		fs = append(fs, fail("blacklisted_key_never_admitted", "blacklist-bypass-cached-peer-id", sitePS,
 			fmt.Sprintf("key %s is blacklisted (MarkBadNode) but its connection was admitted (claimed CachePeerID of %s)", auth, argS(toks, "cache"))))
 	}
-	honest := claim == auth && auth != "S" && argS(toks, "cache") == "" && argS(toks, "net") == "" && argS(toks, "ver") == "" && argS(toks, "mon") == ""
+	honest := claim == auth && auth != "S" && argS(toks, "stall") == "" && argS(toks, "cache") == "" && argS(toks, "net") == "" && argS(toks, "ver") == "" && argS(toks, "mon") == ""
 	if honest && !black[auth] && !peers[auth] && !added {
 		cl := "honest-peer-refused"
 		if ansArg(ans, "why") == "duplicate" {
@@ -228,6 +361,9 @@ func monitorSwConn(toks []string, ans string, black, peers map[string]bool) []hx
 	if ansArg(ans, "why") == "timeout" {
 		fs = append(fs, fail("switch_live", "switch-hung", sitePS, "no verdict on a connection attempt: "+ans))
 	}
+	if (argS(toks, "stall") != "" || claim == "stall") && ans[:len("added=false why=handshake")] != "added=false why=handshake" {
+		fs = append(fs, fail("handshake_deadline", "handshake-deadline", sitePeer+":newPeerConn", "a peer that stalled in the handshake was not dropped by the handshake deadline: "+ans))
+	}
 	return fs
 }
 
@@ -236,6 +372,104 @@ func clipS(s string) string {
 		return s[:160] + "..."
 	}
 	return s
+}
+
+// TrySend never blocks and never reorders: with the send routine stuck and an empty queue of capacity q, exactly the first q
+// attempts are taken; what is delivered afterwards is the first message followed by the accepted ones, in order.
+func monitorMtry(toks []string, ans string) []hx.Failure {
+	var fs []hx.Failure
+	q, l0, k, l, seed := atoi(argS(toks, "qcap")), atoi(argS(toks, "first")), atoi(argS(toks, "n")), atoi(argS(toks, "len")), atoi(argS(toks, "seed"))
+	acc := q
+	if k < q {
+		acc = k
+	}
+	if ansArg(ans, "try") != strings.Repeat("1", acc)+strings.Repeat("0", k-acc) || ansArg(ans, "extra") != "falsefalsefalse" {
+		fs = append(fs, fail("trysend_discipline", "trysend-queue-discipline", siteMC+":TrySend", fmt.Sprintf("queue capacity %d, %d attempts: %s", q, k, ans)))
+	}
+	if ansArg(ans, "blocked") != "false" {
+		fs = append(fs, fail("trysend_discipline", "trysend-blocked", siteMC+":TrySend", "TrySend / CanSend blocked: "+ans))
+	}
+	// CanSend: sendQueueSize (message in progress + queued) below the default capacity 100
+	can := ""
+	for i := 1; i <= k; i++ {
+		a := i
+		if a > acc {
+			a = acc
+		}
+		if 1+a < 100 {
+			can += "1"
+		} else {
+			can += "0"
+		}
+	}
+	if ansArg(ans, "can") != can {
+		fs = append(fs, fail("trysend_discipline", "cansend-heuristic", siteMC+":CanSend", "CanSend does not follow sendQueueSize < 100: "+ans))
+	}
+	msgs := [][]byte{genBytes("r", seed, l0)}
+	for i := 0; i < acc; i++ {
+		msgs = append(msgs, genBytes("r", seed+1+i, l))
+	}
+	if ansArg(ans, "err") != "none" || atoi(ansArg(ans, "n")) != len(msgs) || ansArg(ans, "d") != delDigest(msgs) {
+		fs = append(fs, fail("mux_order", "mux-order-or-content", siteMC+":TrySend", "what arrived is not the first message followed by the accepted ones in order: "+ans))
+	}
+	return fs
+}
+
+const sitePeer = "libs/p2p/peer.go"
+
+func monitorSwSend(toks []string, ans string, peers map[string]bool) []hx.Failure {
+	var fs []hx.Failure
+	sp, _ := parseSpec(argS(toks, "d"))
+	ok, got := ansArg(ans, "ok"), ansArg(ans, "got")
+	key, ch := argS(toks, "key"), atoi(argS(toks, "ch"))
+	if ok == "true" {
+		if got != fmt.Sprintf("%d:%s", ch, fnvOf(sp.bytes())) {
+			fs = append(fs, fail("peer_send", "peer-send-bytes-differ", sitePeer+":Send", "the remote end did not receive the bytes sent: "+ans))
+		}
+		if ch != 64 {
+			fs = append(fs, fail("peer_send", "send-on-unadvertised-channel", sitePeer+":hasChannel", fmt.Sprintf("a message left on channel %d which the peer did not advertise: %s", ch, ans)))
+		}
+		if !peers[key] {
+			fs = append(fs, fail("peer_send", "send-to-stopped-peer", sitePeer+":Send", "Send succeeded towards a peer that is not in the peer set: "+ans))
+		}
+	}
+	if ansArg(ans, "can") == "true" && !peers[key] {
+		fs = append(fs, fail("peer_send", "send-to-stopped-peer", sitePeer+":CanSend", "CanSend is true for a peer that is not in the peer set: "+ans))
+	}
+	if ok == "false" && (got != "-") {
+		fs = append(fs, fail("peer_send", "refused-send-left-bytes", sitePeer+":Send", "a refused Send put bytes on the wire: "+ans))
+	}
+	if ok == "false" && peers[key] && ch == 64 && sp.n > 0 && argS(toks, "stale") == "" {
+		fs = append(fs, fail("peer_send", "peer-send-refused", sitePeer+":Send", "Send to a running peer on an advertised channel was refused: "+ans))
+	}
+	return fs
+}
+
+// a message that arrives on the connection authenticated as K reaches the reactor as coming from node ID(K), unchanged
+func monitorSwRecv(toks []string, ans string, peers map[string]bool) []hx.Failure {
+	var fs []hx.Failure
+	sp, _ := parseSpec(argS(toks, "d"))
+	from := ansArg(ans, "from")
+	key, ch := argS(toks, "key"), atoi(argS(toks, "ch"))
+	switch {
+	case from == "timeout":
+		fs = append(fs, fail("peer_recv", "switch-hung", sitePeer, "no delivery and no removal: "+ans))
+	case from == "nopeer" || from == "none-peer-removed":
+		if peers[key] && (ch == 64 || ch == 65) && sp.n <= 4096 && from == "none-peer-removed" {
+			fs = append(fs, fail("peer_recv", "valid-message-dropped-peer", sitePeer, "a valid message got the peer removed: "+ans))
+		}
+	default:
+		if from != key {
+			fs = append(fs, fail("peer_recv", "message-attributed-to-wrong-peer", sitePeer+":createMConnection", fmt.Sprintf("a message on the connection authenticated as %s reached the reactor as from %s", key, from)))
+		}
+		if ansArg(ans, "d") != fnvOf(sp.bytes()) || atoi(ansArg(ans, "ch")) != ch {
+			fs = append(fs, fail("peer_recv", "reactor-bytes-differ", sitePeer+":createMConnection", "the reactor did not get the bytes the peer sent: "+ans))
+		}
+		if sp.n > 4096 || (ch != 64 && ch != 65) {
+			fs = append(fs, fail("capacity_guard", "mux-over-capacity-delivered", sitePeer, "a message over capacity / on an unknown channel reached the reactor: "+ans))
+		}
+	}
+	return fs
 }
 
 // per channel: the delivered sequence is a prefix of the sent sequence (whole messages, in order), complete when
@@ -250,6 +484,9 @@ func monitorMux(toks []string, ans string) []hx.Failure {
 	}
 	oversize := false
 	for _, c := range cs {
+		if c.cap == 0 {
+			c.cap = 22020096 // ChannelDescriptor.FillDefaults: defaultRecvMessageCapacity
+		}
 		var sent [][]byte
 		firstOver := -1
 		for _, it := range plan {
@@ -331,6 +568,10 @@ func monitorMraw(toks []string, ans string) []hx.Failure {
 		}
 		acc[ch] = append(acc[ch], sp.bytes()...)
 		if eof == 1 {
+			if v := argS(toks, "panicat"); v != "" && atoi(v) == len(want) {
+				wantErr = "handlerpanic" // the handler panics on this delivery: one error, nothing further, process alive
+				break
+			}
 			want = append(want, fmt.Sprintf("%d:%d:%s", ch, len(acc[ch]), fnvOf(acc[ch])))
 			acc[ch] = nil
 		}
@@ -599,7 +840,12 @@ func genMux(g *hx.Gen) {
 	ids := g.Rng.Perm(60)
 	var cs []chanCfg
 	for i := 0; i < nch; i++ {
-		cs = append(cs, chanCfg{id: 1 + ids[i], prio: 1 + g.Rng.Intn(10), cap: 1 << 20, qcap: 1 + g.Rng.Intn(6)})
+		cc := chanCfg{id: 1 + ids[i], prio: 1 + g.Rng.Intn(10), cap: 1 << 20, qcap: 1 + g.Rng.Intn(6)}
+		if g.Rng.Intn(6) == 0 {
+			cc.cap, cc.qcap = 0, 0 // zero values: ChannelDescriptor.FillDefaults (capacity 21 MiB, queue 100)
+			g.Count("mux:descriptor-defaults")
+		}
+		cs = append(cs, cc)
 	}
 	var plan []string
 	nmsg := 1 + g.Rng.Intn(g.Pick(14, 40))
@@ -777,6 +1023,10 @@ func swConnOp(g *hx.Gen, kind string, auth, other string) string {
 		return fmt.Sprintf("swconn auth=%s claim=%s cache=%s %s", auth, other, auth, tr)
 	case "garbage", "silent":
 		return fmt.Sprintf("swconn auth=%s claim=%s %s", auth, kind, tr)
+	case "stall-eph", "stall-auth":
+		return fmt.Sprintf("swconn auth=%s claim=%s stall=%s %s", auth, auth, kind[6:], tr)
+	case "stall-nodeinfo":
+		return fmt.Sprintf("swconn auth=%s claim=stall %s", auth, tr)
 	case "othernet":
 		return fmt.Sprintf("swconn auth=%s claim=%s net=other-chain %s", auth, auth, tr)
 	case "badversion":
@@ -790,6 +1040,8 @@ func swConnOp(g *hx.Gen, kind string, auth, other string) string {
 var swKinds = []string{"honest", "honest", "honest", "impersonate", "impersonate", "impersonate", "claimself", "asself", "cacheid", "impersonate+cache",
 	"garbage", "silent", "othernet", "badversion", "badmoniker"}
 
+var swStalls = []string{"stall-eph", "stall-auth", "stall-nodeinfo"}
+
 func genSwitch(g *hx.Gen) {
 	ops := []string{hx.CaseOp("switch"), "swnew"}
 	n := 3 + g.Rng.Intn(8)
@@ -799,7 +1051,26 @@ func genSwitch(g *hx.Gen) {
 		for o == a {
 			o = swKeys[g.Rng.Intn(len(swKeys))]
 		}
-		switch r := g.Rng.Intn(12); {
+		switch r := g.Rng.Intn(16); {
+		case r == 12 || r == 13:
+			ch := []int{64, 64, 64, 65, 7}[g.Rng.Intn(5)]
+			l := []int{1, 300, 1024, 1025, 5000, 0}[g.Rng.Intn(6)]
+			mode := []string{"send", "try"}[g.Rng.Intn(2)]
+			st := ""
+			if g.Rng.Intn(5) == 0 {
+				st = " stale=1"
+			}
+			g.Count(fmt.Sprintf("sw:peer-%s ch=%d", mode, ch))
+			ops = append(ops, fmt.Sprintf("swsend key=%s ch=%d d=r:%d:%d mode=%s%s", a, ch, g.Rng.Intn(999), l, mode, st))
+		case r == 14 || r == 15:
+			ch := []int{64, 64, 65, 99}[g.Rng.Intn(4)]
+			l := []int{1, 100, 4096, 4097, 3000}[g.Rng.Intn(5)]
+			g.Count(fmt.Sprintf("sw:remote-sends ch=%d", ch))
+			fr := ""
+			if l > 1 && g.Rng.Intn(2) == 0 {
+				fr = fmt.Sprintf(" frag=%d", 1+g.Rng.Intn(l-1))
+			}
+			ops = append(ops, fmt.Sprintf("swrecv key=%s ch=%d d=r:%d:%d%s", a, ch, g.Rng.Intn(999), l, fr))
 		case r == 0:
 			g.Count("sw:blacklist")
 			ops = append(ops, "swblack key="+a)
@@ -817,9 +1088,259 @@ func genSwitch(g *hx.Gen) {
 	g.Case("switch admission", ops, true)
 }
 
+// exerciseSnappyBomb gates the cases of the proposed finding read-allocates-announced-length (proposed/C18-snappy-bomb.md):
+// a few-byte compressed frame that announces a huge decoded length makes Read allocate that much before any length test.
+const exerciseSnappyBomb = false
+
+func uvarint(n uint64) []byte {
+	var b []byte
+	for n >= 0x80 {
+		b = append(b, byte(n)|0x80)
+		n >>= 7
+	}
+	return append(b, byte(n))
+}
+
+// sealed frames from a hand-made peer (the PEER chooses the frame type): valid seals in order, replays, frames sealed for
+// a later nonce, damaged frames, every length-field boundary, plaintexts shorter than the length field / longer than the buffer
+func genSealed(g *hx.Gen, long bool) {
+	ops := []string{hx.CaseOp("stream", "sealed"), fmt.Sprintf("scp k=%d seed=%d j=%d", pickInt(g, ks), g.Rng.Intn(1000), g.Rng.Intn(2))}
+	next := 0
+	n := 4 + g.Rng.Intn(10)
+	if long {
+		n = 140 // the last nonce byte wraps at least once: carry into the next byte (incrNonce)
+		g.Count("sealed:nonce-carry-run")
+	}
+	reads := func(k int) {
+		for i := 0; i < k; i++ {
+			ops = append(ops, fmt.Sprintf("r side=b n=%d", []int{1, 3, 20, 100, 32768, 40000}[g.Rng.Intn(6)]))
+		}
+	}
+	for i := 0; i < n; i++ {
+		kind := []string{"valid", "valid", "valid", "valid", "replay", "ahead", "flip", "cut", "lf=0", "lf=max", "lf=max+1", "lf=2^32-1", "lf>data", "short", "toolong"}[g.Rng.Intn(15)]
+		if long {
+			kind = "valid"
+		}
+		g.Count("sealed:" + kind)
+		dl := 1 + g.Rng.Intn(40)
+		sd := g.Rng.Intn(1 << 16)
+		switch kind {
+		case "valid":
+			ops = append(ops, fmt.Sprintf("seal idx=%d lf=%d d=r:%d:%d", next, dl, sd, dl))
+			next++
+			if long {
+				ops = append(ops, "r side=b n=100")
+				continue
+			}
+		case "replay":
+			if next == 0 {
+				continue
+			}
+			ops = append(ops, fmt.Sprintf("seal idx=%d lf=%d d=r:%d:%d", g.Rng.Intn(next), dl, sd, dl))
+		case "ahead":
+			ops = append(ops, fmt.Sprintf("seal idx=%d lf=%d d=r:%d:%d", next+1+g.Rng.Intn(3), dl, sd, dl))
+		case "flip":
+			ops = append(ops, fmt.Sprintf("seal idx=%d lf=%d d=r:%d:%d flip=%d", next, dl, sd, dl, g.Rng.Intn(dl+20)))
+		case "cut":
+			ops = append(ops, fmt.Sprintf("seal idx=%d lf=%d d=r:%d:%d cut=%d", next, dl, sd, dl, 1+g.Rng.Intn(dl+19)))
+		case "lf=0":
+			ops = append(ops, fmt.Sprintf("seal idx=%d lf=0 d=r:%d:%d", next, sd, dl))
+			next++
+		case "lf=max":
+			ops = append(ops, fmt.Sprintf("seal idx=%d lf=%d d=r:%d:%d", next, hDataMaxSize, sd, hDataMaxSize))
+			next++
+		case "lf=max+1":
+			ops = append(ops, fmt.Sprintf("seal idx=%d lf=%d d=r:%d:%d", next, hDataMaxSize+1, sd, dl))
+			next++ // the nonce moves on although the frame is refused
+		case "lf=2^32-1":
+			ops = append(ops, fmt.Sprintf("seal idx=%d lf=4294967295 d=r:%d:%d", next, sd, dl))
+			next++
+		case "lf>data":
+			ops = append(ops, fmt.Sprintf("seal idx=%d lf=%d d=r:%d:%d", next, dl+1+g.Rng.Intn(50), sd, dl))
+			next++
+		case "short":
+			ops = append(ops, fmt.Sprintf("seal idx=%d lf=%d d=r:%d:%d short=%d", next, g.Rng.Intn(1<<20), sd, dl, g.Rng.Intn(4)))
+			next++
+		case "toolong":
+			ops = append(ops, fmt.Sprintf("seal idx=%d lf=%d d=r:%d:%d", next, dl, sd, hDataMaxSize+1+g.Rng.Intn(3000)))
+			next++
+		}
+		reads(1 + g.Rng.Intn(3))
+		for j := 0; j < 3; j++ { // drain what a big chunk may have left
+			ops = append(ops, "r side=b n=40000")
+		}
+	}
+	ops = append(ops, "r side=b n=10")
+	g.Case("sealed frames", ops, true)
+}
+
+// compressed frames at every boundary of the length field, and (gated) the snappy bomb
+func genFrameBounds(g *hx.Gen) {
+	ops := []string{hx.CaseOp("stream", "inject"), fmt.Sprintf("sc k=%d seed=%d j=%d", pickInt(g, ks), g.Rng.Intn(1000), g.Rng.Intn(2))}
+	kind := []string{"len=0", "len=cap", "len=cap-garbage", "len=cap+1", "len=2^32-1", "ann>max-small", "bomb"}[g.Rng.Intn(7)]
+	if kind == "bomb" && !exerciseSnappyBomb {
+		kind = "ann>max-small"
+	}
+	g.Count("bounds:" + kind)
+	switch kind {
+	case "len=0":
+		ops = append(ops, injLine("b", 0xFF, 0, nil, "err"))
+	case "len=cap": // a frame of exactly frameCapacity bytes: valid snappy of a chunk over dataMaxSize
+		sp := spec{"r", g.Rng.Intn(1000), 65000}
+		pay := snappy.Encode(nil, sp.bytes())
+		for len(pay) < hFrameCapacity-hHeaderSize {
+			sp.n++
+			pay = snappy.Encode(nil, sp.bytes())
+		}
+		if len(pay) == hFrameCapacity-hHeaderSize {
+			ops = append(ops, injLine("b", 0xFF, len(pay), pay, sp.String())+fmt.Sprintf(" ann=%d", sp.n))
+		}
+	case "len=cap-garbage":
+		pay := genBytes("r", g.Rng.Intn(1000), hFrameCapacity-hHeaderSize)
+		pay[0], pay[1] = 0x10, 0xfc // announces 16 bytes, then nonsense
+		if _, err := snappy.Decode(nil, pay); err != nil {
+			ops = append(ops, injLine("b", 0xFF, len(pay), pay, "err")+" ann=16")
+		}
+	case "len=cap+1":
+		ops = append(ops, injLine("b", 0xFF, hFrameCapacity-hHeaderSize+1, []byte{1, 2, 3}, "err"))
+	case "len=2^32-1":
+		ops = append(ops, injLine("b", 0xFF, 1<<32-1, []byte{1, 2, 3}, "err"))
+	case "ann>max-small": // announces a little more than dataMaxSize, truncated data: refused, modest allocation
+		a := hDataMaxSize + 1 + g.Rng.Intn(100000)
+		pay := append(uvarint(uint64(a)), 0x00, 0xaa)
+		ops = append(ops, injLine("b", 0xFF, len(pay), pay, "err")+fmt.Sprintf(" ann=%d", a))
+	case "bomb":
+		a := []int{1 << 22, 1 << 26, 1 << 28}[g.Rng.Intn(3)]
+		pay := append(uvarint(uint64(a)), 0x00, 0xaa)
+		ops = append(ops, injLine("b", 0xFF, len(pay), pay, "err")+fmt.Sprintf(" ann=%d", a))
+	}
+	for i := 0; i < 4; i++ {
+		ops = append(ops, fmt.Sprintf("r side=b n=%d", pickInt(g, readSizes)))
+	}
+	g.Case("frame bounds "+kind, ops, true)
+}
+
+// Write while the transport fails after k frames
+func genWriteFail(g *hx.Gen) {
+	ops := []string{hx.CaseOp("stream"), fmt.Sprintf("sc k=%d seed=%d j=%d", pickInt(g, ks), g.Rng.Intn(1000), g.Rng.Intn(2))}
+	side := []string{"a", "b"}[g.Rng.Intn(2)]
+	other := map[string]string{"a": "b", "b": "a"}[side]
+	ops = append(ops, fmt.Sprintf("w side=%s d=r:%d:%d", side, g.Rng.Intn(999), pickInt(g, smallSizes)))
+	n := []int{1, 32767, 32768, 32769, 65536, 65537, 98305}[g.Rng.Intn(7)]
+	k := g.Rng.Intn(4)
+	g.Count(fmt.Sprintf("writefail:frames-before-failure=%d", k))
+	ops = append(ops, fmt.Sprintf("wf side=%s k=%d d=r:%d:%d", side, k, g.Rng.Intn(999), n))
+	ops = append(ops, fmt.Sprintf("w side=%s d=r:%d:%d", side, g.Rng.Intn(999), 5))
+	for i := 0; i < 6; i++ {
+		ops = append(ops, fmt.Sprintf("r side=%s n=40000", other))
+	}
+	g.Case("write on a failing transport", ops, true)
+}
+
+func genMtry(g *hx.Gen) {
+	q := []int{1, 2, 3, 5, 99, 100, 120}[g.Rng.Intn(7)]
+	n := q + g.Rng.Intn(6)
+	if g.Rng.Intn(4) == 0 && q > 1 {
+		n = q - 1
+	}
+	g.Count(fmt.Sprintf("mtry:qcap=%d", q))
+	op := fmt.Sprintf("mtry qcap=%d first=%d n=%d len=%d seed=%d", q, 70000+g.Rng.Intn(30000), n, 1+g.Rng.Intn(40), g.Rng.Intn(1<<16))
+	g.Case("trysend", []string{hx.CaseOp("mux", "trysend"), op}, true)
+}
+
+// capacity boundary with EOF, handler panic
+func genMrawEdge(g *hx.Gen) {
+	maxpay := []int{4, 16, 64}[g.Rng.Intn(3)]
+	capv := maxpay * (2 + g.Rng.Intn(3))
+	c := chanCfg{id: 1 + g.Rng.Intn(50), prio: 1, cap: capv, qcap: 1}
+	var pk []string
+	add := func(eof, l int) {
+		sd := g.Rng.Intn(1 << 16)
+		over := 0
+		if overLimit(c.id, eof, genBytes("r", sd, l), maxpay) {
+			over = 1
+		}
+		pk = append(pk, fmt.Sprintf("%d:%d:%d:r:%d:%d", c.id, eof, over, sd, l))
+	}
+	op := ""
+	kind := []string{"cap-exact-eof", "cap-exact-then-empty-eof", "cap+1", "cap-exact-then-one", "slack-exact", "panic"}[g.Rng.Intn(6)]
+	g.Count("mrawedge:" + kind)
+	fill := func(total int) {
+		for total > 0 {
+			l := maxpay
+			if l > total {
+				l = total
+			}
+			total -= l
+			if total == 0 {
+				return
+			}
+			add(0, l)
+		}
+	}
+	switch kind {
+	case "cap-exact-eof":
+		fill(capv)
+		add(1, capv-(capv-1)/maxpay*maxpay)
+	case "cap-exact-then-empty-eof":
+		fill(capv)
+		add(0, capv-(capv-1)/maxpay*maxpay)
+		add(1, 0)
+	case "cap+1":
+		fill(capv)
+		add(0, capv-(capv-1)/maxpay*maxpay)
+		add(1, 1)
+	case "cap-exact-then-one":
+		fill(capv)
+		add(1, capv-(capv-1)/maxpay*maxpay)
+		add(1, 1) // next message starts from an empty buffer
+	case "slack-exact": // payloads around the size limit of one packet (maxPacketMsgSize = full packet + 10)
+		for _, d := range []int{0, 7, 8, 9, 10, 11, 12} {
+			add(1, maxpay+d)
+			if strings.Contains(pk[len(pk)-1], ":1:r:") && strings.Split(pk[len(pk)-1], ":")[2] == "1" {
+				break
+			}
+		}
+		c.cap = 4 * maxpay
+	case "panic":
+		for i := 0; i < 2+g.Rng.Intn(4); i++ {
+			add(1, 1+g.Rng.Intn(maxpay))
+		}
+		op = fmt.Sprintf(" panicat=%d", g.Rng.Intn(len(pk)))
+	}
+	line := fmt.Sprintf("mraw chans=%s maxpay=%d k=%d seed=%d j=%d%s pk=%s", chansLine([]chanCfg{c}), maxpay, pickInt(g, ks), g.Rng.Intn(1000), g.Rng.Intn(2), op, strings.Join(pk, ","))
+	g.Case("mraw edge "+kind, []string{hx.CaseOp("mraw"), line}, true)
+}
+
 func (P) Generate(g *hx.Gen) {
+	for i := 0; i < g.Pick(24, 300); i++ {
+		genSealed(g, i == 0)
+	}
+	for i := 0; i < g.Pick(14, 150); i++ {
+		genFrameBounds(g)
+	}
+	for i := 0; i < g.Pick(12, 150); i++ {
+		genWriteFail(g)
+	}
+	for i := 0; i < g.Pick(8, 60); i++ {
+		genMtry(g)
+	}
+	for i := 0; i < g.Pick(30, 400); i++ {
+		genMrawEdge(g)
+	}
+	for _, m := range []string{"answer", "silent", "answer", "silent"} {
+		g.Count("mping:" + m)
+		g.Case("ping pong "+m, []string{hx.CaseOp("mux", "ping"), fmt.Sprintf("mping mode=%s k=%d seed=%d j=%d", m, pickInt(g, ks), g.Rng.Intn(1000), g.Rng.Intn(2))}, true)
+	}
 	// corpus of the switch-level identity clause
 	tr := "k=0 seed=1 j=0"
+	for _, k := range swStalls { // a stalling peer is dropped by the handshake deadline and does not hold the accept loop
+		g.Case("corpus "+k, []string{hx.CaseOp("switch"), "swnew", swConnOp(g, k, "A", "A"), swConnOp(g, "honest", "A", "A"), swConnOp(g, k, "B", "B"), swConnOp(g, "honest", "B", "B")}, true)
+	}
+	g.Case("corpus send and receive", []string{hx.CaseOp("switch"), "swnew", "swconn auth=A claim=A " + "k=3 seed=1 j=1", "swsend key=A ch=64 d=r:1:300 mode=send",
+		"swsend key=A ch=64 d=r:2:5000 mode=try", "swsend key=A ch=65 d=r:1:3 mode=send", "swsend key=A ch=7 d=r:1:3 mode=try", "swsend key=A ch=64 d=r:1:0 mode=send",
+		"swrecv key=A ch=64 d=r:5:100", "swrecv key=A ch=65 d=r:6:10 frag=4", "swrecv key=A ch=64 d=r:7:4096", "swrecv key=A ch=64 d=r:7:4097",
+		"swsend key=A ch=64 d=r:1:3 mode=send stale=1", "swconn auth=A claim=A k=0 seed=2 j=0", "swrecv key=A ch=99 d=r:6:10", "swsend key=A ch=64 d=r:1:3 mode=try stale=1"}, true)
 	g.Case("corpus impersonation then victim", []string{hx.CaseOp("switch"), "swnew", "swconn auth=B claim=C " + tr, "swconn auth=C claim=C " + tr}, true)
 	g.Case("corpus same ID claimed by two keys", []string{hx.CaseOp("switch"), "swnew", "swconn auth=A claim=C " + tr, "swconn auth=B claim=C " + tr, "swconn auth=C claim=C " + tr}, true)
 	g.Case("corpus blacklisted ID claimed by another key", []string{hx.CaseOp("switch"), "swnew", "swblack key=D", "swconn auth=E claim=D " + tr, "swconn auth=D claim=D " + tr, "swconn auth=E claim=E " + tr}, true)
